@@ -12,17 +12,19 @@ NextFreq(f) == CASE f = 2 -> 26 [] f = 26 -> 80 [] f = 80 -> 2
 VARIABLES rfch,   \* RF_CH register
           own,    \* advertising frequency the BLE object established
           blk,    \* 0 = no block open, 1 = the BLE object's, 2 = the other object's
+          named,  \* a device name is set (leaving the object's block clears it again)
           last
-vars == <<rfch, own, blk, last>>
-Init == rfch = 26 /\ own = 26 /\ blk = 0 /\ last = "init"     \* the constructor hops once: 2 -> 26
-EnterBle   == blk = 0 /\ blk' = 1 /\ rfch' = own /\ own' = own /\ last' = "enter"
-ExitBlk    == blk # 0 /\ blk' = 0 /\ UNCHANGED <<rfch, own>> /\ last' = "exit"
-EnterOther == blk = 0 /\ blk' = 2 /\ rfch' = 76 /\ own' = own /\ last' = "other"
-Hop        == blk = 1 /\ own' = NextFreq(own) /\ rfch' = NextFreq(own) /\ blk' = blk /\ last' = "hop"
-SetCh(v)   == blk = 1 /\ blk' = blk /\ last' = "set"
+vars == <<rfch, own, blk, named, last>>
+Init == rfch = 26 /\ own = 26 /\ blk = 0 /\ named = FALSE /\ last = "init"     \* the constructor hops once: 2 -> 26
+EnterBle   == blk = 0 /\ blk' = 1 /\ rfch' = own /\ own' = own /\ named' = named /\ last' = "enter"
+ExitBlk    == blk # 0 /\ blk' = 0 /\ UNCHANGED <<rfch, own>> /\ named' = (named /\ blk # 1) /\ last' = "exit"
+EnterOther == blk = 0 /\ blk' = 2 /\ rfch' = 76 /\ own' = own /\ named' = named /\ last' = "other"
+Hop        == blk = 1 /\ own' = NextFreq(own) /\ rfch' = NextFreq(own) /\ blk' = blk /\ named' = named /\ last' = "hop"
+SetCh(v)   == blk = 1 /\ blk' = blk /\ named' = named /\ last' = "set"
               /\ (IF v \in {2, 26, 80} THEN own' = v /\ rfch' = v ELSE UNCHANGED <<own, rfch>>)
-Advertise  == blk = 1 /\ UNCHANGED <<rfch, own, blk>> /\ last' = "adv"
-Next == EnterBle \/ ExitBlk \/ EnterOther \/ Hop \/ (\E v \in {2, 26, 80, 50} : SetCh(v)) \/ Advertise
+SetName(b) == blk = 1 /\ named # b /\ named' = b /\ UNCHANGED <<rfch, own, blk>> /\ last' = "name"
+Advertise  == blk = 1 /\ UNCHANGED <<rfch, own, blk, named>> /\ last' = "adv"
+Next == EnterBle \/ ExitBlk \/ EnterOther \/ Hop \/ (\E v \in {2, 26, 80, 50} : SetCh(v)) \/ (\E b \in BOOLEAN : SetName(b)) \/ Advertise
 Spec == Init /\ [][Next]_vars
 C18_TunedInOwnBlock == blk = 1 => rfch = own /\ own \in {2, 26, 80}
 Depth == TLCGet("level") <= 7
